@@ -1,11 +1,14 @@
 #!/bin/bash
 # Process every finished candidate under /tmp/mut/out: confirm it (seedverify) and run the check against it (seedtest).
 cd "$(dirname "$0")/.."
-exec 9>.scratch/seedloop.lock; flock -n 9 || { echo "seedloop already running"; exit 0; }
+W=${1:-0}; NW=${2:-1}
+exec 9>.scratch/seedloop.$W.lock; flock -n 9 || { echo "seedloop $W already running"; exit 0; }
+mine() { local h=$(printf %s "$1" | cksum | cut -d" " -f1); [ $((h % NW)) -eq $W ]; }
 mkdir -p seeded .scratch
 for d in /tmp/mut/out/*/; do
   n=$(basename "$d")
   [ -f "$d/meta.json" ] && [ -f "$d/patch.diff" ] || continue
+  mine "$n" || continue
   [ -d "seeded/$n" ] && continue
   grep -qx "$n" seeded/.rejected 2>/dev/null && continue
   if python3 lib/seedverify.py "$d" "$n" > .scratch/seedverify-$n.log 2>&1; then
@@ -17,6 +20,7 @@ for d in /tmp/mut/out/*/; do
 done
 for d in seeded/*/; do
   n=$(basename "$d")
+  mine "$n" || continue
   python3 - "$n" <<'PY' || continue
 import json,sys
 try:
